@@ -26,6 +26,59 @@ def load_known():
         return json.load(fh).get("findings", [])
 
 
+def mutant_selftest(pid, mod, repo):
+    """Thorough tier: apply every stored mutant patch of this property (and every seeded change) to a scratch copy of the tree
+    (outside /repo and /verif), re-run the rules on the copy and record whether a violation is reported.  Never changes the verdict."""
+    import glob
+    import shutil
+    import subprocess
+    import tempfile
+    patches = sorted(glob.glob(os.path.join(VERIF, "mutants", pid + "-*.patch")))
+    for meta in sorted(glob.glob(os.path.join(VERIF, "seeded", "*", "meta.json"))):
+        try:
+            with open(meta) as fh:
+                m = json.load(fh)
+            if pid in (m.get("property"), ) or pid in m.get("caught_by", []):
+                patches.append(os.path.join(os.path.dirname(meta), "patch.diff"))
+        except Exception:
+            pass
+    rep = {"applied": 0, "killed": 0, "skipped": 0, "survivors": [], "results": []}
+    for pf in patches:
+        d = tempfile.mkdtemp(prefix="rt-mut-")
+        try:
+            subprocess.run(["rsync", "-a", "--exclude", "target", "--exclude", ".git", repo.rstrip("/") + "/", d + "/"], check=True)
+            r = subprocess.run(["patch", "-p1", "-s", "-i", pf], cwd=d, capture_output=True, text=True)
+            if r.returncode != 0:
+                rep["skipped"] += 1
+                rep["results"].append({"patch": os.path.relpath(pf, VERIF), "result": "skipped (does not apply to the current tree)"})
+                continue
+            try:
+                fx = facts.extract(d, "default")
+            except SystemExit as e:
+                rep["skipped"] += 1
+                rep["results"].append({"patch": os.path.relpath(pf, VERIF), "result": "skipped (%s)" % e})
+                continue
+            prog = mir.Program(fx)
+            c = Ctx(pid, prog, d, "quick", "default")
+            try:
+                mod.run(c)
+            except mir.AnchorMissing as e:
+                c.violation("anchor-missing", str(e), "anchor-missing: " + str(e))
+            except Exception as e:  # a crash on a mutant is reported, not hidden
+                c.violation("rule-crashed", "crash", "rule crashed on the mutant: %r" % (e,))
+            v = [i for i in c.instances if not i["ok"]]
+            rep["applied"] += 1
+            if v:
+                rep["killed"] += 1
+                rep["results"].append({"patch": os.path.relpath(pf, VERIF), "result": "killed", "first_violation": v[0]["key"]})
+            else:
+                rep["survivors"].append(os.path.relpath(pf, VERIF))
+                rep["results"].append({"patch": os.path.relpath(pf, VERIF), "result": "SURVIVED"})
+        finally:
+            shutil.rmtree(d, ignore_errors=True)
+    return rep
+
+
 def main():
     ap = argparse.ArgumentParser()
     ap.add_argument("prop")
@@ -128,6 +181,9 @@ def main():
         print("  rule=%s at %s: %s" % (v["rule"], v.get("loc", "?"), v["detail"]))
         lines.append("VIOLATION property=%s replay=%s" % (pid, rp))
 
+    mutant_report = None
+    if tier == "thorough" and not os.environ.get("VERIF_NO_MUTANTS"):
+        mutant_report = mutant_selftest(pid, mod, args.repo)
     wall = time.time() - t0
     nontrivial = {i["key"] for i in instances if i.get("nontrivial", True)}
     samples = []
@@ -167,6 +223,8 @@ def main():
     for c in ctxs:
         for k, v in c.extra.items():
             ev["coverage"].setdefault(k, v)
+    if mutant_report is not None:
+        ev["coverage"]["sensitivity_selftest"] = mutant_report
     if not args.no_evidence:
         os.makedirs(os.path.join(VERIF, "evidence"), exist_ok=True)
         with open(os.path.join(VERIF, "evidence", pid + ".json"), "w") as fh:
